@@ -531,18 +531,52 @@ func InnermostRepoFrame(st string) string {
 	return "unknown"
 }
 
+// WaitScheduled waits until done is closed or until this process has been running for d (counted in observed
+// 100 ms ticks, see WithTimeout); it reports whether done was closed.
+func WaitScheduled(done <-chan struct{}, d time.Duration) bool {
+	ticks := int(d / (100 * time.Millisecond))
+	tk := time.NewTicker(100 * time.Millisecond)
+	defer tk.Stop()
+	last := time.Now()
+	for n := 0; n < ticks; {
+		select {
+		case <-done:
+			return true
+		case now := <-tk.C:
+			if now.Sub(last) < 250*time.Millisecond {
+				n++
+			}
+			last = now
+		}
+	}
+	return false
+}
+
 // WithTimeout runs f in a goroutine; if it does not return within d the goroutine is abandoned and
 // a "hang" failure carrying a goroutine dump is returned (callers decide whether that is a
 // violation of their property or an inconclusive run).
 func WithTimeout(d time.Duration, f func() *Failure) (*Failure, bool) {
 	ch := make(chan *Failure, 1)
 	go func() { ch <- Guard(f) }()
-	select {
-	case r := <-ch:
-		return r, false
-	case <-time.After(d):
-		buf := make([]byte, 1<<20)
-		n := runtime.Stack(buf, true)
-		return &Failure{Class: "hang", Msg: fmt.Sprintf("no return within %v", d), Extra: string(buf[:n])}, true
+	// The budget is counted in observed 100 ms ticks, not in wall-clock time: a process that was stopped or
+	// starved of CPU sees fewer ticks (the ticker drops them), so only time in which this process was actually
+	// scheduled counts. A goroutine blocked on a latch or spinning in a loop still lets the ticks through.
+	ticks := int(d / (100 * time.Millisecond))
+	tk := time.NewTicker(100 * time.Millisecond)
+	defer tk.Stop()
+	last := time.Now()
+	for n := 0; n < ticks; {
+		select {
+		case r := <-ch:
+			return r, false
+		case now := <-tk.C:
+			if now.Sub(last) < 250*time.Millisecond {
+				n++ // a gap means the process did not run: that interval is not charged
+			}
+			last = now
+		}
 	}
+	buf := make([]byte, 1<<20)
+	n := runtime.Stack(buf, true)
+	return &Failure{Class: "hang", Msg: fmt.Sprintf("no return within %v", d), Extra: string(buf[:n])}, true
 }
